@@ -30,8 +30,11 @@ theorem code_frustum (l r b t n f : K) (h1 : l ≤ r) (h2 : b ≤ t) (h3 : n ≤
   have hfc := C10.frustum_faces l r b t n f hx hy hz hn hf
   exact ⟨frustumMat l r b t n f, hk, fun x y z => C10.frustum_w l r b t n f x y z, hfc.1, hfc.2.1, hfc.2.2.1⟩
 
-/-- parameters violating the stated precondition panic: on each rejecting path the comparisons the code made are the
-precondition's, and no matrix is returned -/
+/-- parameters violating the stated precondition panic: the kernel of each rejecting path is a panic (no output list) and the
+comparisons it records are the precondition's, with the outcomes listed.  The three equalities hold for every input (each kernel
+is a closed term; the premises of the implications are logically unused and only name the path); that a path is the one taken
+exactly when its comparisons come out as recorded is `frustum_bad_*_consistent` / `code_frustum_panics_iff`, `E2E/C10g.lean`.
+That the model returns no matrix on these paths is the second conjunct of `Trace.C10.t_frustum_bad_*`, not restated here -/
 theorem code_frustum_rejects (l r b t n f : K) :
     (¬ l ≤ r → t_frustum_bad_lr (envL [l, r, b, t, n, f]) = .panicG [.le l r false]) ∧
     (l ≤ r → ¬ b ≤ t → t_frustum_bad_bt (envL [l, r, b, t, n, f]) = .panicG [.le l r true, .le b t false]) ∧
